@@ -2,6 +2,9 @@ import LyModel.Path.Print
 import LyModel.Path.Eval
 import LyModel.Path.Typed
 import LyModel.Val.DrvU
+import LyModel.Path.TypedExt
+import LyModel.Val.DrvHex
+import LyModel.Val.DrvBin
 /-!
 Driver ops of component `path` (plumbing only: (de)serialisation of trees/schemas and formatting of results).
 
@@ -22,8 +25,9 @@ Serialisations are single protocol tokens (no blanks):
   newpath <schema> <tree> <path> <val> -> ok <parent-addr> <tree-of-created-chain> | err <Enum>
 
 Typed variants (`Typed.lean`): the schema serialisation carries, for a leaf / leaf-list, `#<n>` in place of the (empty) child list —
-the index of its type in the `;`-separated descriptor list `<types>` (descriptors of component `val`: `i8:1..5`, `d2`, `bool`,
-`enum:<hex>=<v>,…`, `bits:<hex>=<pos>,…`, `str:<len>`, `idref:<leafmod>:<bases>@<graph>`, `U(<d>|<d>…)`; `?` = a type outside the
+the index of its type in the `~`-separated descriptor list `<types>` (descriptors of component `val`: `i8:1..5`, `d2`, `bool`,
+`enum:<hex>=<v>,…`, `bits:<hex>=<pos>,…`, `str:<len>`, `idref:<leafmod>:<bases>@<graph>`, `U(<d>|<d>…)`, `pstr:<len>:<patterns>`,
+`t:ietf-yang-types:<hex-string|mac-address|phys-address|uuid|date-and-time>`, `bin:<len>`, `empty`; `?` = a type outside the
 model) — and the values of the tree are value keys (canonical string, for a union value that its canonical string does not
 identify followed by `00` and the member index).
   tfind <tschema> <types> <tree> <path>          -> as find
@@ -142,11 +146,16 @@ def parseTSNodes (tys : Array (Option KTy)) : Nat → List Char → Option (List
 def ktyOfDesc (d : String) : Option KTy :=
   if d == "?" then none
   else if d.startsWith "U(" then (Val.DrvU.parseUTy .json (d.length + 1) d).map fun u => KTy.ofUnion u.flatten
+  else if d.startsWith "pstr:" then (Val.DrvU.parsePStr d).map KTy.pstr
+  else if Val.DrvHex.isDesc d then (Val.DrvHex.tyOfDesc d).map KTy.hexStr
+  else if d == "t:ietf-yang-types:date-and-time" then some KTy.dateTime
+  else if Val.DrvBin.isDesc d then (Val.DrvBin.lengthOfDesc d).map KTy.binary
+  else if d == "empty" then some KTy.empty
   else if d.startsWith "idref:" then (Val.DrvU.parseIdTy d).map fun t => KTy.ofPlug (Val.idrefPlug t.ctx t.bases t.pmJson t.pmJson)
   else (Val.Drv.parseTy d).map fun t => KTy.ofPlug (Val.MTy.base t).plug
 
 def readTypes (s : String) : Array (Option KTy) :=
-  if s == "-" then #[] else ((s.splitOn ";").map ktyOfDesc).toArray
+  if s == "-" then #[] else ((s.splitOn "~").map ktyOfDesc).toArray
 
 def readTSchema (s types : String) : Option (List TSNode) :=
   if s == "-" then some [] else
